@@ -12,3 +12,32 @@ End Block.
 (* recorded joint states (ids, one per sweep) against the joint state of the block samplers' own current points after
    each sweep, observed through the wrapped step methods -- and, re-read at the end, the same *)
 Definition check_sweeps (blocks_after recorded : list Z) : bool := zl_eqb blocks_after recorded.
+
+(* ------------------------------------------------------------------------------------------ *)
+(* HybridGibbs as a composite machine: a list of block samplers; one sweep visits the blocks in order, conditions block i
+   on the current values of all blocks (its own entry is whatever the block sampler ignores), lets it take its inner
+   transitions and records the block sampler's point.  HybridGibbs has no checkpoint interface; the composite checkpoint
+   that exists is: get_state() of every block sampler (+ current_samples, which is map point of them). *)
+Section Sweep.
+Variables Bs V Rnd : Type.
+Variable bstep : nat -> list V -> Bs -> Rnd -> Bs.
+Variable point : Bs -> V.
+
+Fixpoint inner (i : nat) (vs : list V) (b : Bs) (rs : list Rnd) : Bs :=
+  match rs with [] => b | r :: rs' => inner i vs (bstep i vs b r) rs' end.
+
+Fixpoint sweep_aux (done todo : list Bs) (rss : list (list Rnd)) : list Bs :=
+  match todo, rss with
+  | b :: todo', rs :: rss' =>
+      let b' := inner (length done) (map point (done ++ todo)) b rs in sweep_aux (done ++ [b']) todo' rss'
+  | _, _ => done ++ todo
+  end.
+Definition sweep (bl : list Bs) (rss : list (list Rnd)) : list Bs := sweep_aux [] bl rss.
+
+(* the chain recorded by a sequence of sweeps: the blocks' points after each sweep *)
+Fixpoint gibbs_chain (bl : list Bs) (rsss : list (list (list Rnd))) : list (list V) :=
+  match rsss with
+  | [] => []
+  | rss :: r => let bl' := sweep bl rss in map point bl' :: gibbs_chain bl' r
+  end.
+End Sweep.
